@@ -181,7 +181,7 @@ def judge_e2e(case, tables):
 # ------------------------------------------------------------------ the check
 
 
-def contribute(res, prop, tier, tables, want_all=False):
+def contribute(res, prop, tier, tables, want_all=False, collect=None):
     """correspondence + search; adds proof breaks / failures concerning `prop` and a coverage block"""
     t0 = time.time()
     rng = common.rng("bcase")
@@ -205,6 +205,8 @@ def contribute(res, prop, tier, tables, want_all=False):
     # search: the REAL results of the same samples
     nfail = 0
     for (p, site, kind), ex in sorted(out["findings"].items()):
+        if collect is not None:
+            collect.append((p, site, kind, json.dumps(ex[0], ensure_ascii=False)[:600], {"kind": "caseu", "check": ex[0]["check"]}))
         if want_all or p == prop:
             nfail += 1
             res.fail(site, kind, json.dumps(ex[0], ensure_ascii=False)[:600], {"kind": "caseu", "check": ex[0]["check"]})
@@ -216,6 +218,8 @@ def contribute(res, prop, tier, tables, want_all=False):
         e2e_changed += 1 if changed else 0
         for p, site, kind, detail in found:
             e2e_findings.append((p, site, kind, detail))
+            if collect is not None:
+                collect.append((p, site, kind, detail, {"kind": "e2e", "name": c["name"], "text": c["text"], "config": c["config"]}))
             if want_all or p == prop:
                 res.fail(site, kind, detail, {"kind": "e2e", "name": c["name"], "text": c["text"], "config": c["config"]})
     res.coverage.setdefault("bcase", {})
@@ -242,6 +246,44 @@ def contribute(res, prop, tier, tables, want_all=False):
         "wall_s": round(time.time() - t0, 1),
     }
     return out["n"] + nf + nc + nx + len(e2e), out["nontrivial"] + nf_nontriv + nc_nontriv + nx + e2e_changed
+
+
+def extra(res, tier, prop=None):
+    """hook for the registered checks (C01 C03 C10 C19): the correspondence of the B-full case family (real
+    case_utils.check_for_case_violation, formal-part analysis, consistent_* choices, the five real _fix_violation
+    functions against the Lean functions) and the search on the real code with the same samples.  One run per
+    (tree, tier, seed) is shared between the properties through the cache directory."""
+    import hashlib
+    import os
+    import pickle
+
+    import gen_tables
+
+    prop = prop or res.prop
+    key = hashlib.sha256(("%s/%s/%d" % (common.tree_hash(), tier, common.seed())).encode()).hexdigest()[:20]
+    path = os.path.join(common.CACHE, "bcase-%s.pkl" % key)
+    data = None
+    if os.path.exists(path):
+        try:
+            data = pickle.load(open(path, "rb"))
+        except Exception:  # noqa: BLE001
+            data = None
+    if data is None:
+        tables, _ = gen_tables.generate()
+        tmp = common.Result("BCASE", tier)
+        collect = []
+        n, nontriv = contribute(tmp, "BCASE", tier, tables, want_all=False, collect=collect)
+        data = {"collect": collect, "breaks": tmp.proof_breaks, "coverage": tmp.coverage.get("bcase"), "n": n, "nontrivial": nontriv}
+        os.makedirs(common.CACHE, exist_ok=True)
+        with open(path + ".tmp%d" % os.getpid(), "wb") as f:
+            pickle.dump(data, f)
+        os.replace(path + ".tmp%d" % os.getpid(), path)
+    for b in data["breaks"]:
+        res.proof_break(b["what"], b["detail"])
+    for p, site, kind, detail, rp in data["collect"]:
+        if p == prop:
+            res.fail(site, kind, detail, dict(rp, via="props_bcase"))
+    res.coverage["layer_b_case_family"] = dict(data["coverage"] or {}, evaluations=data["n"], nontrivial=data["nontrivial"])
 
 
 def run(prop, tier):
